@@ -28,7 +28,7 @@ def validate(ctx: Ctx, module: str, rows: list, *, invariants, files: dict | Non
              name: str | None = None, tag=lambda r: "", describe=lambda r: json.dumps(r)[:400],
              expect_rows_ok="RowsOK", timeout=3600, env=None, java_opts="-Xss64m -Xmx24g",
              count_traces=True, workers=None, constants=None,
-             result_keys=("r",)) -> bool:
+             result_keys=("r",), spec="Spec") -> bool:
     """Validate `rows` with spec module `module` (state variable i = row index).
 
     files: extra ndjson inputs {ENVNAME: list-of-items}.  Returns True iff TLC accepted all rows.
@@ -40,7 +40,7 @@ def validate(ctx: Ctx, module: str, rows: list, *, invariants, files: dict | Non
     # field, which every table spec tests BEFORE it touches the result (TLC cannot compare a
     # string with a tuple), so an unexpected exception is a rejected row, not a TLC error.
     for r in rows:
-        exc = ""
+        exc = r.get("exc", "") or ""
         for key in result_keys:
             if isinstance(r.get(key), str):
                 exc = exc or (r[key] if r[key].startswith("EXC:") else "BADVALUE:" + r[key][:80])
@@ -70,7 +70,7 @@ def validate(ctx: Ctx, module: str, rows: list, *, invariants, files: dict | Non
             write_ndjson(d / f"{en}.ndjson", items)
             envv[en] = str(d / f"{en}.ndjson")
         envv.update(env or {})
-        res = ctx.tlc(module, cfg(invariants, constants=constants), env=envv, name=name + part,
+        res = ctx.tlc(module, cfg(invariants, spec=spec, constants=constants), env=envv, name=name + part,
                       timeout=timeout, cont=bool(part), java_opts=java_opts, workers=workers)
         if count_traces:
             ctx.traces += len(part_rows)
